@@ -8,6 +8,7 @@ mod fuzz;
 mod scen;
 mod fam_c13;
 mod fam_c16;
+mod fam_c19;
 mod fam_c20;
 mod world;
 mod ffi;
@@ -82,6 +83,10 @@ fn sys_family(name: &str) -> Option<SysFam> {
 fn main() {
     let args: Vec<String> = std::env::args().collect();
     let fam = args.get(1).cloned().unwrap_or_default();
+    if fam == "tails_child" {
+        fam_c19::tails_child(&args[2], args[3].parse().unwrap());
+        return;
+    }
     let seed: u64 = arg(&args, "--seed").and_then(|s| s.parse().ok()).unwrap_or(1);
     let thorough = arg(&args, "--tier").map(|t| t == "thorough").unwrap_or(false);
     let out_path = arg(&args, "--out").unwrap_or_else(|| "/dev/null".into());
@@ -117,6 +122,7 @@ fn main() {
         "c13" => fam_c13::gen(&mut rng, thorough, &mut ctx.out),
         "c16" => fam_c16::gen(&mut rng, thorough, &mut ctx.out),
         "c20" => fam_c20::gen(&mut rng, thorough, &mut ctx.out),
+        "c19" => vec![],
         other if sys_family(other).is_some() => vec![],
         other => {
             eprintln!("unknown family {other}");
@@ -126,6 +132,13 @@ fn main() {
     for case in cases {
         let imp = eval(&case, &mut ctx);
         ctx.out.write_case(case, imp);
+    }
+    if fam == "c19" {
+        let w = ctx.world();
+        let done = fam_c19::run(&w, &mut rng, thorough, &mut ctx.out);
+        for (case, imp) in done {
+            ctx.out.write_case(case, imp);
+        }
     }
     // system-level scenario families: cases come with the implementation outcome (real crypto, stateful engine)
     if let Some(f) = sys_family(&fam) {
